@@ -26,6 +26,7 @@ theorem akeHasFinished_run (K : Crypto) (s : MState) (a : Ake) (ha : s.conv.ake 
         { conv := { s.conv with
                       keys := (a.keys.generateNewDHKeyPair K r).1
                       ssid := if s.conv.msgState = .encrypted then a.ssid else s.conv.ssid
+                      sentRevealSig := if s.conv.msgState = .encrypted then a.sentRevealSig else s.conv.sentRevealSig
                       ake := some a.wiped
                       lastMessageStateChange := some s.env.now
                       msgState := .encrypted }
